@@ -1464,3 +1464,20 @@ def instances(tier):
     out.append(Inst(prop_obj, dict(otypes=types, only=['objectIdentifier'], variant="declared"), budget=60,
                     label="objectIdentifier"))
     return out
+
+
+# ------------------------------------------------------------------ priorities 1..16 over the wire
+# the statement's "priorities 1..16": a commandable object's presentValue written at two priorities and the priority
+# array (the library's own default array, built by ArrayOf.fix_length) read back element by element - the harness is
+# C17's wire-level command harness, here with the default array
+from .C17 import prio_wire                                                    # noqa: E402
+
+_c15_instances = instances
+
+
+def instances(tier):
+    out = _c15_instances(tier)
+    q = tier == "quick"
+    out.append(Inst(prio_wire, dict(cls='AnalogValueCmdObject', n=2, full=not q, own_array=False), budget=300 if q else 900,
+                    path_timeout=120, label="AnalogValueCmdObject,default-array"))
+    return out
